@@ -158,6 +158,29 @@ def main(tier, replay):
             s["pauses"] = sorted(rnd.sample(grid, min(rnd.choice([1, 1, 2]), len(grid))))
             s["pickle"] = rnd.random() < 0.5
             gens.append(s)
+        # schedules that cut junctions off and reconnect them (C09's multigraphs), paused so that a part ends with junctions
+        # isolated and the next part starts exactly at the step that reconnects them (and the other way round)
+        import c09
+        import c02
+        for i in range(60 if tier == "quick" else 1500):
+            s = c09.multigraph_scenario(rnd, 7000 + i)
+            H = s["H"]
+            if i % 2 == 0:
+                # a dead-end junction behind one pipe that is closed (from the start or at t1) and re-opened at theta
+                s["nodes"].append(c02.junction("JD", 2.5, [{"base": 0.002, "pat": ""}]))
+                s["links"].append({"name": "PD", "type": "pipe", "a": rnd.choice(["R0", "J0"]), "b": "JD", "len": 200.0, "diam": 0.3,
+                                   "rough": 100.0, "minor": 0.0, "cv": False, "init": rnd.choice([0, 1])})
+                k = len(s["links"])
+                theta = H * rnd.randint(2, s["Dur"] // H - 1)
+                if s["links"][-1]["init"]:
+                    s["ctl"].append({"kind": "sim", "thr": H * rnd.randint(0, theta // H - 1), "rep": 0, "link": k, "val": 0, "prio": 3})
+                s["ctl"].append({"kind": "sim", "thr": theta, "rep": 0, "link": k, "val": 1, "prio": 3})
+            grid = [t for t in range(0, s["Dur"], H)]
+            before = sorted({(c["thr"] // H) * H - (H if c["thr"] % H == 0 else 0) for c in s["ctl"]} & set(grid))
+            s["pauses"] = sorted(set(rnd.sample(before, min(len(before), rnd.choice([1, 2]))))) if before else [rnd.choice(grid)]
+            s["pickle"] = rnd.random() < 0.5
+            s["tag"] = "isolation-schedule"
+            gens.append(s)
     if gens:
         with cf.ProcessPoolExecutor(max_workers=common.NCPU) as ex:
             cases = [c for c in ex.map(general_case, gens, chunksize=4) if c is not None]
@@ -169,7 +192,8 @@ def main(tier, replay):
         for gi, payload in verdicts:
             s = good[gi]["scn"]
             for cl in common.parse_set(payload):
-                ck.violation(cl, "%s pauses=%s pickle=%s" % (" ".join(sorted(netgen.features_of(s))), s["pauses"], s["pickle"]),
+                ck.violation(cl, "%s%s pauses=%s pickle=%s" % (s.get("tag", "") + " " if s.get("tag") else "",
+                                                               " ".join(sorted(netgen.features_of(s))), s["pauses"], s["pickle"]),
                              {"scn": s})
         for c in good:
             ck.nontrivial(" ".join(sorted(netgen.features_of(c["scn"]))) + str(c["scn"]["pauses"]))
